@@ -238,7 +238,8 @@ pub fn make_case(subs: &[Vec<L>], stops: &[StopVia], aw: Awaiter, mailbox: Mailb
         role.work.push((msg_id(0, 0), Work { panic: true, ..Work::default() }));
     }
     let desc = format!(
-        "stop mailbox={} failing={} subs={} stops={:?} awaiter={:?}",
+        "stop{} mailbox={} failing={} subs={} stops={:?} awaiter={:?}",
+        crate::progscene::variant_tag(),
         mailbox.name(),
         failing,
         subs.iter().map(|p| p.iter().map(|l| format!("{l:?}")).collect::<Vec<_>>().join(",")).collect::<Vec<_>>().join(" | "),
@@ -249,11 +250,11 @@ pub fn make_case(subs: &[Vec<L>], stops: &[StopVia], aw: Awaiter, mailbox: Mailb
         desc,
         exec: ExecCfg::default(),
         bound,
-        scene: Box::new(ProgScene { attach: crate::progscene::Attach::None, spawn: SpawnCfg::plain(mailbox), roles: vec![role], clients, extra: X { failing }, oracle }),
+        scene: Box::new(ProgScene { attach: crate::progscene::attach_for(mailbox), spawn: SpawnCfg::plain(mailbox), roles: vec![role], clients, extra: X { failing }, oracle }),
     }
 }
 
-fn cases(tier: Tier) -> Vec<Case> {
+fn plain_cases(tier: Tier) -> Vec<Case> {
     let mut v = vec![];
     let subs_alpha = [L::SendAddr, L::CallAddr, L::CallCal, L::SendSnd];
     let stops = [StopVia::AddrStop, StopVia::AddrHalt, StopVia::WeakTryStop, StopVia::WeakTryHalt, StopVia::CtxStop, StopVia::Consume];
@@ -313,6 +314,21 @@ fn cases(tier: Tier) -> Vec<Case> {
             }
         }
     }
+    v
+}
+
+/// The family on the plain event loop, plus (every third case in the quick tier, all of them in
+/// the thorough tier) the same programs on the stream loop: the actor is attached to a stream
+/// that stays open and never yields, so `create_loop_on_stream` serves the mailbox.
+fn cases(tier: Tier) -> Vec<Case> {
+    let mut v = plain_cases(tier);
+    let s = crate::progscene::with_stream_variant(|| plain_cases(tier));
+    v.extend(s.into_iter().enumerate().filter(|(i, c)| (tier == Tier::Thorough || i % 3 == 0)).map(|(_, mut c)| {
+        // the attached stream is never ready, so the loop's select! tie-break cannot change anything:
+        // it is not explored as a choice here (C13 explores it, with streams that do yield)
+        c.exec.select_choice = false;
+        c
+    }));
     v
 }
 
